@@ -70,6 +70,10 @@ CLAIMED = {
    technique="explicit enumeration of all frame sequences up to a length bound through every registered codec, and of all call histories up to depth 3 on live codec / jpeg2000.Encoder / jpeg2000.Decoder objects, each compared with history-free results and with a deep state key read by reflection",
    text="(1) every frame sequence of length 1..3 (thorough 4) over {zeros, ramp, noise, MAX} x 14 codecs x BitsAllocated/BitsStored pairs (incl. stored < allocated) x SPP x sizes: one AddFrame per frame in order, frame i encodes/decodes exactly as alone, encoding twice is byte-identical, source buffers untouched (the PixelData hands out the caller's own slices), decoded size from BitsAllocated, lossless equality. (2) every history of depth <= 3 over {Encode A, Encode B, Decode A, Decode B} on each registry instance with before/after deep state comparison. (3) 6 parameter sets x every history of depth <= 3 over 4 frames on one jpeg2000.Encoder vs fresh encoders. (4) all 584 histories of depth <= 3 over 8 stream kinds (grey, RCT, no MCT, ICT, ROI, custom MCT, tiled, HTJ2K) on one jpeg2000.Decoder vs fresh decoders.",
    note="State keys are deep renderings of all fields (unexported too) via reflect+unsafe; no abstraction, so merging is trivially sound. Configurations a codec declines with an error are counted, not judged. One known finding (BitsStored<=8 in 16-bit containers)."),
+ "C08": dict(engine="E3 deviation-bounded byte-source exploration in sandboxed workers", design="§4 C08",
+   technique="deviation-bounded exhaustive fault enumeration over byte sources: every single-byte deviation (all values on header bytes), truncation, deletion and duplication at every offset of every seed stream, every sequence of <= 3 well-formed segments, an RLE FrameInfo x header x body lattice, into all 22 decoding entry points in sandboxed worker processes",
+   text="Seeds are valid streams of every encoder and configuration class (56 quick / 103 thorough: DCT, lossless, JPEG-LS incl. LSE, JPEG 2000 with layers/precincts/tiles/ROI/MCT/HT, spliced COC/QCC/POC/PLT/PPM/TLM/CRG/MCT/MCC/MCO segments, reference-encoder streams with Td 0..3, DRI, sub-sampling, two third-party HTJ2K fixtures). Deviation 0, then 1 (every position x every other value on marker segments, boundary values and bit flips on entropy bytes in quick; all values in thorough), deviation 2 on header byte pairs x 12 boundary values (thorough). About 24 M decodes per quick run. A recovered panic is a violation keyed by entry point and panic site; a killed or crashed worker is attributed to one case through a per-case journal and re-run alone 5x.",
+   note="Inputs whose independently parsed header declares more than 2^12 samples are thinned (1/16 .. 1/256) and above 2^26 skipped in quick because fresh memory is what limits throughput in this VM; out-of-memory aborts are C09's subject. The thin Codec.Decode wrappers see every 8th input in quick."),
 }
 NOT_APPLICABLE = {}
 
